@@ -25,7 +25,8 @@ func runSysStop(x *X) {
 	o := sysOpts{strategy: strategies[c.Intn(5, "strategy")], nBackends: 1 + c.Intn(2, "nbackends")}
 	o.timeouts = config.TimeoutConfig{Read: 60, Write: 60, Idle: 60, BackendRead: 60, Handler: 120, Shutdown: T}
 	if c.Intn(2, "active") == 1 {
-		o.active, o.interval, o.ptimeout, o.window = true, 2+c.Intn(4, "interval"), 1, 5
+		o.active, o.interval, o.window = true, 2+c.Intn(9, "interval"), 5
+		o.ptimeout = 1 + c.Intn(o.interval-1, "ptimeout")
 	}
 	env, err := newSysEnv(x, o)
 	if err != nil {
@@ -34,7 +35,7 @@ func runSysStop(x *X) {
 	defer env.close()
 	if o.active && c.Intn(3, "slow-probe") == 0 {
 		env.mu.Lock()
-		env.backends[0].probeSlow = 3 * time.Second // slower than the probe timeout
+		env.backends[0].probeSlow = time.Duration(o.ptimeout+2) * time.Second // a stalled health endpoint
 		env.mu.Unlock()
 		x.Fault("probe-slow")
 	}
@@ -131,7 +132,9 @@ func runSysStop(x *X) {
 	env.mu.Lock()
 	ret, rAt := returned, retAt
 	env.mu.Unlock()
-	slack := time.Second + 100*time.Millisecond // one probe timeout for Stop
+	// server.Shutdown is bounded by the timeout; Stop cancels in-flight probes and must not
+	// add a probe timeout on top
+	slack := 100 * time.Millisecond
 	if !ret {
 		x.Violate("C19", "C19/shutdown-did-not-return", "shutdownGracefully had not returned %v after it was called (timeout %v)", x.Now()-invAt, TD)
 		return
